@@ -32,10 +32,18 @@ func ZZ_C12_stalledConsumer() {
 	q := qs[zz.Choose("prior_beacons", len(qs))]
 	for i := 1; i <= q; i++ {
 		_ = cbs.Put(ctx, &common.Beacon{Round: uint64(i), Signature: []byte{1}})
+		zz.Yield() // the healthy consumer keeps up with the writer
 	}
 	zz.Quiesce()
 	if q >= CallbackWorkerQueue+1 {
 		zz.Tag("queue=full") // 1 job held by the stalled worker + CallbackWorkerQueue queued
+	}
+	if q < CallbackWorkerQueue && zz.Bool("stalled_client_reconnects") {
+		// the client whose stream is stalled opens a new stream: same callback id, the old worker is still
+		// stuck inside its callback. Registering must not wait for it.
+		zz.Tag("reconnect_while_stalled")
+		cbs.AddCallback("stalled", func(*common.Beacon, bool) { <-gate })
+		zz.Quiesce()
 	}
 	err := cbs.Put(ctx, &common.Beacon{Round: uint64(q + 1), Signature: []byte{1}}) // must return
 	zz.Quiesce()
